@@ -327,6 +327,9 @@ func (cc *Session) Run() {
 
 		cmd := data[0]
 		data = data[1:]
+		// decided before the command runs: a transaction the command itself opens began after the
+		// namespace change and must not get the client disconnected
+		closeAfterNsChange := cc.shouldClearKsAndCloseSession(cc.executor.nsChangeIndexOld)
 		rs := cc.execCommand(cmd, data)
 
 		// 如果其他地方已经回收过,不再回收
@@ -345,7 +348,7 @@ func (cc *Session) Run() {
 			return
 		}
 
-		if cmd == mysql.ComQuit || cc.shouldClearKsAndCloseSession(cc.executor.nsChangeIndexOld) {
+		if cmd == mysql.ComQuit || closeAfterNsChange {
 			cc.Close()
 		}
 	}
